@@ -28,6 +28,12 @@ func routeKey(d int) string { return fmt.Sprintf("did:key:z6MkRouteKeyOfRecipien
 // attachMediator builds a real mediator service over the world's store provider and message pickup service and
 // registers one route key per recipient (through the real keylist-update handler).
 func (w *world) attachMediator(alias bool) {
+	w.buildMediator(alias)
+	w.registerRoutes()
+}
+
+// buildMediator creates a mediator service instance over the world's store provider and message pickup service.
+func (w *world) buildMediator(alias bool) {
 	vdr := &mockvdr.MockVDRegistry{ResolveFunc: func(id string, _ ...vdrspi.DIDMethodOption) (*did.DocResolution, error) {
 		docID := id
 		if alias {
@@ -65,8 +71,11 @@ func (w *world) attachMediator(alias bool) {
 	}
 
 	w.med = svc
+}
 
-	for d := 1; d <= 3; d++ {
+// registerRoutes registers one route key per recipient through the real keylist-update handler (persisted in the store).
+func (w *world) registerRoutes() {
+	for d := 1; d <= 4; d++ {
 		m := map[string]interface{}{"@id": fmt.Sprintf("ku-%d", d), "@type": mediator.KeylistUpdateMsgType,
 			"updates": []map[string]string{{"recipient_key": routeKey(d), "action": "add"}}}
 		if e := w.med.VerifHandleKeylistUpdate(mustMsg(m), "did:example:mediator", didName(d)); e != nil {
